@@ -92,6 +92,12 @@ impl MemoryMappedPosition {
             fee_growth_checkpoint_b: le_u128(self.fee_growth_checkpoint_b), fee_owed_b: le_u64(self.fee_owed_b),
             reward_infos: [self.reward_infos[0].view(), self.reward_infos[1].view(), self.reward_infos[2].view()] }
     }
+//@ fn pinocchio/state/whirlpool/position.rs whirlpool in=/^impl MemoryMappedPosition \{/ -> r tags=C15,C12
+    ensures *r == self.view().whirlpool,
+//@ end
+//@ fn pinocchio/state/whirlpool/position.rs position_mint in=/^impl MemoryMappedPosition \{/ -> r tags=C15,C12
+    ensures *r == self.view().position_mint,
+//@ end
 //@ fn pinocchio/state/whirlpool/position.rs liquidity in=/^impl MemoryMappedPosition \{/ -> r
     ensures r == self.view().liquidity,
 //@ end
@@ -230,6 +236,22 @@ impl MemoryMappedWhirlpool {
             reward_infos: [self.reward_info_v(0), self.reward_info_v(1), self.reward_info_v(2)], ..self.rest() }
     }
     pub uninterp spec fn rest(&self) -> Whirlpool;
+    pub closed spec fn token_mint_a_v(&self) -> Pubkey { self.token_mint_a }
+    pub closed spec fn token_mint_b_v(&self) -> Pubkey { self.token_mint_b }
+    pub closed spec fn token_vault_a_v(&self) -> Pubkey { self.token_vault_a }
+    pub closed spec fn token_vault_b_v(&self) -> Pubkey { self.token_vault_b }
+//@ fn pinocchio/state/whirlpool/whirlpool.rs token_mint_a in=/^impl MemoryMappedWhirlpool \{/ -> r tags=C15,C12
+    ensures *r == self.token_mint_a_v(),
+//@ end
+//@ fn pinocchio/state/whirlpool/whirlpool.rs token_mint_b in=/^impl MemoryMappedWhirlpool \{/ -> r tags=C15,C12
+    ensures *r == self.token_mint_b_v(),
+//@ end
+//@ fn pinocchio/state/whirlpool/whirlpool.rs token_vault_a in=/^impl MemoryMappedWhirlpool \{/ -> r tags=C15,C12
+    ensures *r == self.token_vault_a_v(),
+//@ end
+//@ fn pinocchio/state/whirlpool/whirlpool.rs token_vault_b in=/^impl MemoryMappedWhirlpool \{/ -> r tags=C15,C12
+    ensures *r == self.token_vault_b_v(),
+//@ end
 //@ fn pinocchio/state/whirlpool/whirlpool.rs tick_spacing in=/^impl MemoryMappedWhirlpool \{/ -> r
     ensures r == self.tick_spacing_v(),
 //@ end
